@@ -756,6 +756,47 @@ func preprocess(pc []string, goal string, mode Mode, declSorts map[string]string
 	for _, b := range longC {
 		add(b)
 	}
+	// named element reads of the goal: when the goal mentions a constant c that a hypothesis defines as
+	// an element read (= c (select A idx)), idx (and idx shifted by the slicing offsets) is an index
+	// term of interest too. These are extras: added after the regular candidates, never instead.
+	var defC []string
+	{
+		atoms := map[string]bool{}
+		var walkAtoms func(x *sx)
+		walkAtoms = func(x *sx) {
+			if x.kids == nil {
+				if strings.Contains(x.atom, "!") {
+					atoms[x.atom] = true
+				}
+				return
+			}
+			for _, k := range x.kids {
+				walkAtoms(k)
+			}
+		}
+		walkAtoms(g)
+		ds := map[string]bool{}
+		for _, p := range parsed {
+			if p == nil || p.head() != "=" || len(p.kids) != 3 || !p.kids[1].isAtom() || !atoms[p.kids[1].atom] {
+				continue
+			}
+			if p.kids[2].head() == "select" {
+				indexCandidates(p.kids[2], ds, map[string]bool{})
+			}
+		}
+		for k := range ds {
+			if !strings.HasPrefix(k, "\x00long:") && !candSet[k] {
+				defC = append(defC, k)
+			}
+		}
+		sort.Strings(defC)
+		if len(defC) > 3 {
+			defC = defC[:3]
+		}
+		for _, b := range defC {
+			add(b)
+		}
+	}
 	for _, b := range base {
 		if mode == ModeInt {
 			add("(- " + b + " 1)")
@@ -778,7 +819,7 @@ func preprocess(pc []string, goal string, mode Mode, declSorts map[string]string
 			break
 		}
 		nd++
-		for _, b := range base {
+		for _, b := range append(append([]string(nil), base...), defC...) {
 			if mode == ModeInt {
 				add("(+ " + b + " " + dlt + ")")
 				add("(- " + b + " " + dlt + ")")
